@@ -38,7 +38,7 @@ type Result struct {
 type Options struct {
 	SkipVT   bool   // leave U+000B out of the alphabet
 	Skip     []rune // further single runes left out of the alphabet
-	MaxState int  // product-state cap (default 50000)
+	MaxState int    // product-state cap (default 50000)
 }
 
 type prog struct {
